@@ -603,6 +603,8 @@ class C17(PropertyCheck):
             if case["kind"] == "ijepa" and ans["out"] == "ok":
                 extra = len(ans["reqs"]) // 2 - case["B"] * (case["nPred"] + case["nEnc"])
                 res.bump("ijepa:relaxed" if extra > 0 else "ijepa:first-try")
+                (ph, pw), (eh, ew) = ans["pred_size"], ans["enc_size"]
+                res.bump("ijepa:margin-holds" if eh * ew - case["nPred"] * ph * pw > case["minKeep"] else "ijepa:no-margin")
             if ans["out"] == "nonterm":
                 res.observations.append({"what": "constrained encoder sampler does not end (block of <= min_keep admissible cells)", "case": case})
             if i % 7 == 0:
